@@ -24,7 +24,9 @@ Import ListNotations.
     the tau-subjects, labels by the union of their items' selectors, both side
     by side under all_classes_mode + shape map.  (Partial: the property text
     also covers blank-node / literal answers, prefixed labels, '@' inside IRIs
-    and literal objects of tau -- see the _refuted lemmas.) *)
+    and literal objects of tau -- see the _refuted lemmas.  Prefixed names whose
+    local part repeats their own 'prefix:' are inside [C10_dom] exactly where the
+    code expands them with the count 1, see C10-F9 below.) *)
 Theorem C10_instances_denote_partial :
   forall tg cs fmt orc G,
     C10_dom tg orc G = true ->
@@ -74,6 +76,19 @@ Theorem C10_no_literal_instances :
   forall tg orc G S c dt, C10_dom tg orc G = true -> ~ denote tg (o_ans orc) G S (OL c dt).
 Proof. exact no_literal_instances. Qed.
 Print Assumptions C10_no_literal_instances.
+
+(** A literal is never a class: what makes [s] an instance of class [c] is a
+    statement [s tau c] whose object is the IRI node [c]; a literal spelled like
+    the class IRI ("http://e/C0", plain or typed) denotes nothing, for any
+    specification and graph (no domain hypothesis: this is the Spec layer). *)
+Theorem C10_class_instance_by_iri_object :
+  forall tg ans G c x,
+    denote tg ans G (KClass c) x ->
+    exists tau s, resolve (t_ns tg) (t_tau tg) = Some tau /\ x = ON s /\ In (T s tau (ON (iri_node c))) G.
+Proof.
+  intros tg ans G c x [tau [s [H1 [H2 [H3 _]]]]]. exists tau, s. repeat split; assumption.
+Qed.
+Print Assumptions C10_class_instance_by_iri_object.
 
 (** The computable denotation the check reports ([denote_list], evaluated by
     the model binary and compared with the independent Python oracle) is the
@@ -160,6 +175,19 @@ Example C10_dom_inhabited_classes :
   run ex_orc (to_tspec cls_target ClsFile FmtFixed) ex_graph = OOk [(Str "http://e/n0", [Str "http://e/C0"])].
 Proof. vm_compute. split; reflexivity. Qed.
 
+(** target-classes mode: a literal object of the instantiation property whose
+    lexical form is a requested class IRI is inside the domain and selects nothing
+    (in all_classes_mode such a statement is finding C10-F6) *)
+Example C10_literal_spelled_like_a_class :
+  let G := [T n0 c_RDF_TYPE (OL (Str "http://e/C0") xsd_string);
+            T n1 c_RDF_TYPE C0;
+            T b0 c_RDF_TYPE (OL (Str "http://e/C1") (Str "http://www.w3.org/2001/XMLSchema#anyURI"))] in
+  C10_dom_count cls_target ex_orc G = true /\
+  run ex_orc (to_tspec cls_target ClsList FmtFixed) G = OOk [(Str "http://e/n1", [Str "http://e/C0"])] /\
+  denote_list cls_target (o_ans ex_orc) G (KClass (Str "http://e/C0")) = [ON n1] /\
+  denote_list cls_target (o_ans ex_orc) G (KClass (Str "http://e/C1")) = [].
+Proof. vm_compute. repeat split; reflexivity. Qed.
+
 (** ** known findings: inputs outside the domain on which the full statement fails *)
 
 Definition one_item (sel : selector) (lab : iriref) (all : bool) : target :=
@@ -223,18 +251,82 @@ Proof.
 Qed.
 
 (** C10-F9: a local name containing its own prefix again (here the empty prefix and
-    a ':' in the local name): every occurrence is replaced by the namespace *)
+    a ':' in the local name).  Two copies of the expanding line in the code
+    (NodeSelectorParser._unprefix_uri for selectors, utils.uri.unprefixize_uri_if_possible
+    for class names and the instantiation property); tools/gen_consts.py tells for each
+    whether it is [str.replace(prefix + ":", namespace)] -- every occurrence is replaced by
+    the namespace: the statement fails -- or [str.replace(prefix + ":", namespace, 1)] --
+    such names are inside [C10_dom] and the theorems above cover them. *)
+Definition f9_ns : nsdict := [(Str "http://e/", []); (Str "http://sh/", Str "sh")].
+Definition f9_node := iri_node (Str "http://e/tax:9606").
+Definition f9_sel_target : target :=
+  {| t_ns := f9_ns; t_tau := Full c_RDF_TYPE; t_classes := None; t_all := false;
+     t_items := Some [ {| it_sel := SelNode (Pref [] (Str "tax:9606")); it_label := Angle (Str "http://sh/S0") |} ] |}.
+Definition f9_cls_target : target :=
+  {| t_ns := f9_ns; t_tau := Full c_RDF_TYPE; t_classes := Some [Pref [] (Str "K:1")]; t_all := false;
+     t_items := None |}.
+Definition f9_cls_graph : graph := [T f9_node c_RDF_TYPE (ON (iri_node (Str "http://e/K:1")))].
+
 Lemma C10_prefix_in_local_refuted :
+  c_unprefix_sel_once = false ->
   exists tg cs fmt orc G, rc_prefix_in_local tg = true /\ ~ C10_statement tg cs fmt orc G.
 Proof.
-  exists {| t_ns := [(Str "http://e/", []); (Str "http://sh/", Str "sh")]; t_tau := Full c_RDF_TYPE;
-            t_classes := None; t_all := false;
-            t_items := Some [ {| it_sel := SelNode (Pref [] (Str "tax:9606")); it_label := Angle (Str "http://sh/S0") |} ] |},
-         ClsList, FmtFixed, ex_orc, [T (iri_node (Str "http://e/tax:9606")) c_RDF_TYPE C0].
-  split; [vm_compute; reflexivity|].
-  eapply (refute_by_missing _ _ _ _ _ _ (KLabel (Str "http://sh/S0")) (iri_node (Str "http://e/tax:9606")));
-    vm_compute; reflexivity.
+  intros E.
+  first [ vm_compute in E; discriminate E      (* this copy of the line carries the count: nothing to refute *)
+        | exists f9_sel_target, ClsList, FmtFixed, ex_orc, [T f9_node c_RDF_TYPE C0];
+          split; [vm_compute; reflexivity|];
+          eapply (refute_by_missing _ _ _ _ _ _ (KLabel (Str "http://sh/S0")) f9_node);
+          vm_compute; reflexivity ].
 Qed.
+
+Lemma C10_prefix_in_local_class_refuted :
+  c_unprefix_ifp_once = false ->
+  exists tg cs fmt orc G, rc_prefix_in_local tg = true /\ ~ C10_statement tg cs fmt orc G.
+Proof.
+  intros E.
+  first [ vm_compute in E; discriminate E
+        | exists f9_cls_target, ClsList, FmtFixed, ex_orc, f9_cls_graph;
+          split; [vm_compute; reflexivity|];
+          eapply (refute_by_missing _ _ _ _ _ _ (KClass (Str "http://e/K:1")) f9_node);
+          vm_compute; reflexivity ].
+Qed.
+
+(** the same inputs once the line carries the count 1 (regression examples):
+    inside the domain, and the dictionary is the denoted one *)
+Example C10_prefix_in_local_fixed :
+  c_unprefix_sel_once = true ->
+  C10_dom_count f9_sel_target ex_orc [T f9_node c_RDF_TYPE C0] = true /\
+  rc_prefix_in_local f9_sel_target = false /\
+  run ex_orc (to_tspec f9_sel_target ClsList FmtFixed) [T f9_node c_RDF_TYPE C0] =
+  OOk [(Str "http://e/tax:9606", [Str "<http://sh/S0>"])].
+Proof.
+  intros E. first [ vm_compute in E; discriminate E | vm_compute; repeat split; reflexivity ].
+Qed.
+
+Example C10_prefix_in_local_class_fixed :
+  c_unprefix_ifp_once = true ->
+  C10_dom_count f9_cls_target ex_orc f9_cls_graph = true /\
+  rc_prefix_in_local f9_cls_target = false /\
+  run ex_orc (to_tspec f9_cls_target ClsFile FmtFixed) f9_cls_graph =
+  OOk [(Str "http://e/tax:9606", [Str "http://e/K:1"])].
+Proof.
+  intros E. first [ vm_compute in E; discriminate E | vm_compute; repeat split; reflexivity ].
+Qed.
+
+(** what the two flags mean for the domain: with the count in place a local part
+    is only asked to be blank-free and not to end in '>' (FOCUS tokens), and the
+    root cause F9 is empty *)
+Theorem C10_prefix_in_local_domain :
+  forall once p l,
+    ok_local once p l =
+    nospace l && (once || negb (contains (p ++ Str ":") l)) && negb (suffixb (Str ">") (Str ":" ++ l)).
+Proof. reflexivity. Qed.
+Print Assumptions C10_prefix_in_local_domain.
+
+Theorem C10_prefix_in_local_no_root_cause :
+  c_unprefix_ifp_once = true -> c_unprefix_sel_once = true -> forall tg, rc_prefix_in_local tg = false.
+Proof. intros E1 E2 tg. unfold rc_prefix_in_local. rewrite E1, E2. reflexivity. Qed.
+Print Assumptions C10_prefix_in_local_no_root_cause.
 
 (** ... while a ':' in the local name of any other prefix is inside the domain *)
 Example C10_colon_in_local_name :
